@@ -32,10 +32,12 @@ Lemma classified_lemmas_hold :
   match snd e with Proved l => lemma_statement l | Argued l _ => lemma_statement l | _ => True end.
 Proof. intros [k c] _. destruct c; simpl; try exact I; apply all_lemmas_hold. Qed.
 
-(** the order-dependent sites are exactly these two (the check's known-finding classes) *)
+(** the order-dependent sites are exactly these (the check's known-finding classes; the governance
+    class covers the two commitDpos variants) *)
 Lemma finding_classes_are :
   finding_classes classification =
-  ["maporder:ontfs-errors-event"; "maporder:cycle-detector-first-entry"]%string.
+  ["maporder:governance-blackquit-events"; "maporder:governance-blackquit-events";
+   "maporder:ontfs-errors-event"; "maporder:cycle-detector-first-entry"]%string.
 Proof. vm_compute. reflexivity. Qed.
 
 (** * 2. Execution by the two roles *)
